@@ -600,7 +600,7 @@ def fragment_campaign(chk, rng, sources, budget, seen_fail):
                 appl = D.xml_applicable
             for path in nodes:
                 for op in appl(wrap, path):
-                    if op in ("wronglist",) or (op == "dupid" and len(path) <= 3):
+                    if op in ("wronglist", "harmless") or (op == "dupid" and len(path) <= 3):
                         continue
                     specs.append((fmt, fi, path, op))
     chk.cov["fragment_cases_enumerated"] = len(specs)
@@ -744,6 +744,8 @@ def run(chk):
             src = sources[small[0]]
             ids = [small[1][2]] + [w[2] for w in small[2]]
             damaged = {small[1][2]} | ({small[6]} if small[4] == "dupid" and len(small[3]) == 3 else set())
+            if small[4] == "harmless":
+                damaged = set()
             seen_fail[sig] = {"n": 1, "what": f"{rr['fail'][1]} [operator {small[4]} at {rr['ctx'][0]}.{rr['ctx'][1]}, "
                                              f"document from {src['name']}]",
                               "replay": {"kind": "damage", "fmt": fmt,
@@ -751,6 +753,7 @@ def run(chk):
                                          "all_ids": ids, "damaged_ids": sorted(x for x in damaged if x is not None),
                                          "base_canon": {i: src["base"][i] for i in ids if i in src["base"]},
                                          "operator": small[4], "path": [str(x) for x in small[3]],
+                                         "harmless": small[4] == "harmless",
                                          "how": "tools/c09.py replay(): c09_damage.oracle on `data`"}}
     # ---- non-AAS and garbled input
     hook = EV.Hook().install()
@@ -825,7 +828,7 @@ def run(chk):
     return chk.finish(
         level="proof",
         rule="valid documents = SDK examples + seeded aasgen stores written by the SDK writers; each case damages one node "
-             "(every member / list item / element below a chosen identifiable) with one of 12 operators and reads a document "
+             "(every member / list item / element below a chosen identifiable) with one of 12 damage operators or the 13th, harmless, operator (XML comment / processing instruction / white space at or inside the node, JSON white space / member order / escapes: both readers must return the undamaged result) and reads a document "
              "holding the victim and up to two untouched witnesses with all four readers; all node x operator pairs are "
              "enumerated and a seeded sample of the budget is run; plus fixed and random well-formed non-AAS documents, "
              "truncated/garbled bytes, and random multi-item documents for the walk model; non-trivial = every damage "
@@ -838,7 +841,8 @@ def replay(path):
     rp = r.get("replay") or {}
     if rp.get("kind") == "damage":
         data = rp["data"] if rp["fmt"] == "json" else rp["data"].encode()
-        obs, fail = D.oracle(rp["fmt"], data, rp["base_canon"], set(rp["damaged_ids"]), rp["all_ids"])
+        obs, fail = D.oracle(rp["fmt"], data, rp["base_canon"], set(rp["damaged_ids"]), rp["all_ids"],
+                             harmless=rp.get("harmless", False))
         print("readers (failsafe, strict):", obs)
         print("oracle:", fail)
         return 1 if fail else 0
